@@ -184,6 +184,9 @@ func (vc *VC) execInstr(fr *frame, b *ssa.BasicBlock, ins ssa.Instruction, st *s
 		P := vc.heapGetOr(st.heap, it.key)
 		okc := vc.freshConst(fr.prefix+x.Name()+".ok", "Bool")
 		k := vc.freshConst(fr.prefix+x.Name()+".k", vc.S.sortOf(m.Key()))
+		if vc.S.sortOf(m.Key()) == "String" {
+			vc.keyConsts = append(vc.keyConsts, k)
+		}
 		vc.assume(st.reach, fmt.Sprintf("(=> %s (and (select %s %s) (not (select %s %s))))", okc, it.dom, k, P, k))
 		// exhaustion: instantiated at every ghost constant of the key sort
 		for _, g := range vc.ghostByKey[vc.S.sortOf(m.Key())] {
